@@ -7,6 +7,6 @@ git -C /repo apply "$patch" || { echo "patch does not apply"; exit 2; }
 for c in "$@"; do
   tier=quick
   out=$(timeout 900 /verif/check $c $tier 2>/verif/logs/try_$c.err); code=$?
-  echo "$c: exit=$code $(echo "$out" | head -2 | tr '\n' ' ') $(grep -E '^\s+\[' /verif/logs/try_$c.err | head -2 | cut -c1-220)"
+  echo "$c: exit=$code $(echo "$out" | head -2 | tr '\n' ' ') $(grep -a -E '^\s+\[' /verif/logs/try_$c.err | head -2 | cut -c1-220)"
 done
 git -C /repo checkout -- . 
